@@ -121,6 +121,13 @@ Fixpoint is_merge (ts : list (list cmd)) (sched : list cmd) : bool :=
 Definition owned_by (s : N) (fs : list far) (qs : list qer) : Prop :=
   (forall f, In f fs -> a_fseid f = s) /\ (forall q, In q qs -> q_fseid q = s).
 Definition pdr_cmds (ps : list pdr) : list cmd := flat_map pdr_add ps ++ flat_map pdr_del ps.
+(* the commands a session can ever send: adds and deletes of its rules *)
+Definition session_cmds (burst : N -> N -> N -> N) (ps : list pdr) (fs : list far) (qs : list qer) : list cmd :=
+  add_cmds burst ps fs qs ++ del_cmds ps fs qs.
+(* a FAR / QER slot (module, key) of the session with local SEID [s]; a command addressing such a slot *)
+Definition slot_of_fseid (m : module) (k : list N) (s : N) : Prop :=
+  (m = MFar /\ exists i, k = [i; s]) \/ (m = MAppQer /\ exists i j, k = [i; j; s]) \/ (m = MSessQer /\ exists i, k = [i; s]).
+Definition cmd_of_fseid (c : cmd) (s : N) : Prop := slot_of_fseid (c_mod c) (c_key c) s.
 
 (* ------------------------------------------------------------------ F32: the same local SEID on two associations.
    Two associated connections, one shared agent (datapath, pools); both control planes establish a
